@@ -262,7 +262,49 @@ func indexGuarded(f *ssa.Function, idx, x ssa.Value, at *ssa.BasicBlock) bool {
 			}
 			return false
 		}
+		// idx < m with m itself below (or at) the length on the way here: `for i < len(xs) { for j < i { xs[j] } }`
+		viaBound := func(m ssa.Value) bool {
+			if _, isConst := m.(*ssa.Const); isConst {
+				return false
+			}
+			if bt, ok := m.Type().Underlying().(*types.Basic); !ok || bt.Info()&types.IsInteger == 0 {
+				return false
+			}
+			for _, b2 := range f.Blocks {
+				if len(b2.Instrs) == 0 {
+					continue
+				}
+				if2, ok := b2.Instrs[len(b2.Instrs)-1].(*ssa.If)
+				if !ok {
+					continue
+				}
+				c2, ok := if2.Cond.(*ssa.BinOp)
+				if !ok {
+					continue
+				}
+				isM := func(v ssa.Value) bool { return v == m || sameValue(canonConv(v), canonConv(m)) && v.Type() == m.Type() }
+				switch {
+				case (c2.Op == token.LSS || c2.Op == token.LEQ) && isM(c2.X) && isLen(c2.Y) && edgeDominates(b2, 0, at):
+					return true
+				case (c2.Op == token.GEQ || c2.Op == token.GTR) && isM(c2.X) && isLen(c2.Y) && edgeDominates(b2, 1, at):
+					return true
+				case (c2.Op == token.GTR || c2.Op == token.GEQ) && isLen(c2.X) && isM(c2.Y) && edgeDominates(b2, 0, at):
+					return true
+				case (c2.Op == token.LEQ || c2.Op == token.LSS) && isLen(c2.X) && isM(c2.Y) && edgeDominates(b2, 1, at):
+					return true
+				}
+			}
+			return false
+		}
 		switch {
+		case bo.Op == token.LSS && isIdx(bo.X) && edgeDominates(b, 0, at) && viaBound(bo.Y):
+			return true
+		case bo.Op == token.GEQ && isIdx(bo.X) && edgeDominates(b, 1, at) && viaBound(bo.Y):
+			return true
+		case bo.Op == token.GTR && isIdx(bo.Y) && edgeDominates(b, 0, at) && viaBound(bo.X):
+			return true
+		case bo.Op == token.LEQ && isIdx(bo.Y) && edgeDominates(b, 1, at) && viaBound(bo.X):
+			return true
 		case bo.Op == token.LSS && isIdx(bo.X) && isLen(bo.Y) && edgeDominates(b, 0, at):
 			return true
 		case bo.Op == token.GEQ && isIdx(bo.X) && isLen(bo.Y) && edgeDominates(b, 1, at):
@@ -718,6 +760,25 @@ func ruleP3(p *Prog, r *Report) {
 					r.Ok(R, cons, p.InstrPos(in), why)
 					return
 				}
+				// xs[:i+1] with i a valid index of xs here
+				if x.Low == nil || isConstV(x.Low) {
+					if bo, ok := canonConv(sym).(*ssa.BinOp); ok && bo.Op == token.ADD {
+						if one, isOne := cInt(bo.Y); isOne && one == 1 && (need <= 1) {
+							i := bo.X
+							valid := indexGuarded(f, i, x.X, x.Block())
+							if b, ok := rangeBound(i, x.Block()); ok && !valid {
+								if a, isLen := isLenOf(b); isLen && sameValue(a, x.X) {
+									valid = true
+								}
+							}
+							if valid {
+								nGuards++
+								r.Ok(R, cons, p.InstrPos(in), "upper bound is one past an index that is valid for this slice here")
+								return
+							}
+						}
+					}
+				}
 				r.Bad(R, cons, p.InstrPos(in), "slice with a variable bound that no dominating check or recognised loop idiom relates to the length")
 			case *ssa.IndexAddr, *ssa.Index:
 				var xs, idx ssa.Value
@@ -808,6 +869,13 @@ func ruleP3(p *Prog, r *Report) {
 				if indexGuarded(f, idx, xs, in.Block()) {
 					nGuards++
 					r.Ok(R, cons, p.InstrPos(in), "index guarded by a dominating idx < len check")
+					return
+				}
+				// `for j := range m` (rotated form: every edge into the counter is taken only when its value is below m)
+				// with m itself below (or at) the length here
+				if m, ok := edgeBoundedPhi(idx); ok && (indexGuarded(f, m, xs, in.Block()) || symGuarded(f, m, xs, in.Block())) {
+					nGuards++
+					r.Ok(R, cons, p.InstrPos(in), "index is the counter of a loop below a bound that a dominating check keeps within the length")
 					return
 				}
 				r.Bad(R, cons, p.InstrPos(in), "index derived from input is not guarded by a dominating comparison with the length")
@@ -1080,4 +1148,39 @@ func productFits(m *ssa.BinOp, count ssa.Value, step int64) bool {
 func (c *lbCtx) guardLBOnly(f *ssa.Function, v ssa.Value, at *ssa.BasicBlock) int64 {
 	lb, _ := c.guardLB(f, v, at)
 	return lb
+}
+
+// edgeBoundedPhi: idx is a phi each of whose incoming edges is the true edge of a test `value-on-that-edge < m` for
+// one common m (the rotated form of `for j := range m` / `for j := 0; j < m; j++`): inside the loop idx < m.
+func edgeBoundedPhi(idx ssa.Value) (ssa.Value, bool) {
+	phi, ok := canonConv(idx).(*ssa.Phi)
+	if !ok {
+		return nil, false
+	}
+	var m ssa.Value
+	for i, e := range phi.Edges {
+		pred := phi.Block().Preds[i]
+		ifi, ok := pred.Instrs[len(pred.Instrs)-1].(*ssa.If)
+		if !ok || pred.Succs[0] != phi.Block() || pred.Succs[1] == phi.Block() {
+			return nil, false
+		}
+		bo, ok := ifi.Cond.(*ssa.BinOp)
+		if !ok || bo.Op != token.LSS {
+			return nil, false
+		}
+		if k, isK := cInt(e); isK {
+			k2, isK2 := cInt(bo.X)
+			if !isK2 || k2 != k {
+				return nil, false
+			}
+		} else if bo.X != e && !sameValue(canonConv(bo.X), canonConv(e)) {
+			return nil, false
+		}
+		if m == nil {
+			m = bo.Y
+		} else if m != bo.Y {
+			return nil, false
+		}
+	}
+	return m, m != nil
 }
